@@ -83,3 +83,6 @@ def gen_ops(rng, tier, ctx=None):
 
 def nontrivial(line):
     return line if "," in line else None
+
+# source pins: the C the Lean model mirrors (see tools/pins.py)
+PINS = [('mpn/generic/mul_1.c', 'mpn_mul_1'), ('mpn/generic/addmul_1.c', 'mpn_addmul_1'), ('mpn/generic/submul_1.c', 'mpn_submul_1'), ('mpn/generic/mul_basecase.c', 'mpn_mul_basecase')]
